@@ -365,6 +365,14 @@ func bitOf(m string) int64 {
 		return 4
 	case "PASSWORD":
 		return 512
+	case "KERBEROS":
+		return 64
+	case "SSL":
+		return 256
+	case "TOKEN":
+		return 2048
+	case "SCITOKENS", "IDTOKENS":
+		return 4096
 	}
 	return 0
 }
@@ -588,7 +596,8 @@ const emitResumed = true
 
 func gen(c *core.Ctx) error {
 	peer.Quiet()
-	lists := [][]string{{"CLAIMTOBE"}, {"FS"}, {"FS", "CLAIMTOBE"}, {"CLAIMTOBE", "PASSWORD"}, {"PASSWORD", "CLAIMTOBE", "FS"}}
+	lists := [][]string{{"CLAIMTOBE"}, {"FS"}, {"FS", "CLAIMTOBE"}, {"CLAIMTOBE", "PASSWORD"}, {"PASSWORD", "CLAIMTOBE", "FS"},
+		{"NONE"}, {"NONE", "CLAIMTOBE"}, {"KERBEROS", "BOGUS", "CLAIMTOBE"}}
 	var cfgs []peer.Policy
 	for _, a := range fourLevels {
 		for _, e := range fourLevels {
@@ -599,6 +608,9 @@ func gen(c *core.Ctx) error {
 					}
 					if c.Quick() && li >= 2 && integ == "REQUIRED" {
 						continue
+					}
+					if c.Quick() && li >= 5 && (a == "PREFERRED" || e == "PREFERRED" || e == "NEVER") {
+						continue // quick: the NONE / unknown-name lists on a quarter of the policies
 					}
 					ciphers := []string{"AES"}
 					if li == 3 {
